@@ -34,6 +34,7 @@ def worlds(tier):
         w.W("wshape-EDF-enforce-per-task-deadlines", w.wshape(release=0), w.C2, "EDF", enforce_deadlines=True, split=7, weight=60,
             tasks=dict(small(("X", "W", "Y", "Z")), **{"X": {"deadline": "sym", "strategies": [{"rt": RT3}]}, "W": {"deadline": "sym", "strategies": [{"rt": RT3}]}})),
         w.W("cond2-EDF", w.fixed_times(w.cond2()), w.C1, "EDF", split=6, weight=30),
+        w.W("cond2-EDF-enforce-cancelled-at-the-conditional", w.cond2(release=0), w.C1, "EDF", enforce_deadlines=True, split=6, weight=30, tasks=small(("C", "a", "b", "J"))),
         w.W("cond3-EDF", w.fixed_times(w.cond3()), w.C1, "EDF", split=7, weight=40, tasks=small(("C", "a", "b", "c", "J"))),
         w.W("chain2-havoc-cancel", w.fixed_times(w.chain(2)), w.C1, "HAVOC", split=6, havoc=dict(hv, max_cancels=1, release_taskgraphs=True), tasks=small(("T0", "T1"))),
         w.W("fork-havoc-cancel", w.fixed_times(w.fork()), w.C2, "HAVOC", split=8, havoc=dict(hv, max_cancels=1, max_unplaced=0, future=False, first_pool_only=True),
